@@ -175,6 +175,58 @@ func (x *ctx) unknownCall(st *state, fr *frame, fnv val, args []val, c *ssa.Call
 			return outs
 		}
 	}
+	if c != nil && len(args) == 1 && args[0].fn != nil {
+		if sig, ok := c.Value.Type().Underlying().(*types.Signature); ok && sig.Params().Len() == 1 && sig.Results().Len() == 0 {
+			if ys, ok := sig.Params().At(0).Type().Underlying().(*types.Signature); ok && ys.Results().Len() == 1 {
+				// opaque iterator (iter.Seq): zero or more calls of the loop body on arbitrary non-nil elements
+				x.assumed["iterator-call rule: an opaque iter.Seq calls its yield function on arbitrary non-nil elements"] = true
+				skip := st.clone()
+				skip.sig = append(skip.sig, "iter:0")
+				x.havocClosureEffects(st, fr, args[0])
+				var els []val
+				for i := 0; i < ys.Params().Len(); i++ {
+					e := x.freshVal("iterated", ys.Params().At(i).Type())
+					if e.t.s != "" && e.t.srt == sRef {
+						st.define(not(eq(e.t, null)))
+					}
+					els = append(els, e)
+				}
+				if fnv.iter != nil {
+					// elements of an iterator under contract satisfy its element contract
+					it := fnv.iter
+					for _, cl := range it.spec.Requires {
+						env := func(name string, t types.Type) (val, bool) {
+							np := len(cl.P1) - len(els)
+							for i := np; i < len(cl.P1); i++ {
+								if cl.P1[i] == name && i-np < len(els) {
+									return els[i-np], true
+								}
+							}
+							for i, p := range it.con.Params {
+								if p == name && i < len(it.args) {
+									return it.args[i], true
+								}
+							}
+							return val{}, false
+						}
+						g := x.clauseL1(st, it.con, cl, env)
+						st.assume(g.t.s)
+					}
+				}
+				st.sig = append(st.sig, "iter:1")
+				res := []outcome{{st: skip}}
+				for _, o := range x.callValue(st, fr, args[0], els, nil, types.Typ[types.Bool]) {
+					if o.panic {
+						res = append(res, o)
+						continue
+					}
+					x.havocClosureEffects(o.st, fr, args[0])
+					res = append(res, outcome{st: o.st})
+				}
+				return res
+			}
+		}
+	}
 	what := fnv.origin
 	if what == "" {
 		what = "function value"
@@ -544,6 +596,7 @@ func (x *ctx) tableModel(st *state, fr *frame, op string, callee *ssa.Function, 
 			st.define(eq(x.tblGet(st, m, x.entryKey(st, n, ks, valT), valT), n))
 		}
 		st.sig = append(st.sig, "range:1")
+		x.ghostWrite(st, "ghost_ranged", nil, n)
 		outs := x.callValue(st, fr, args[1], []val{scalar(n)}, nil, types.Typ[types.Bool])
 		var res []outcome
 		res = append(res, outcome{st: skip})
